@@ -342,8 +342,13 @@ func checkCholHist(c cholHistCase) *vk.Failure {
 				if recomputed {
 					condStale = false
 				}
-				if !(cond >= k2*(1-1e-3)/estFactor) {
-					f := failf("update-cond-lower", "%s: Cond()=%g but kappa_2 of the updated matrix is %g", desc, cond, k2)
+				_, _, invN, okN := luRef(An)
+				var f *vk.Failure
+				if okN {
+					f = condLower("update-cond-lower", cond, normInf(An), invN, k2)
+				}
+				if f != nil {
+					f.Msg = desc + ": " + f.Msg
 					if (op.Kind == "zero" && op.Recv != 0) || condStale {
 						f.Key = "symrankone-alpha0-cond-not-set"
 						lt.add(f)
@@ -550,8 +555,9 @@ func checkLUHist(c luHistCase) *vk.Failure {
 		}
 		cond := recv.Cond()
 		if 1e3*float64(n)*eps*kinf < 0.1 && tol*frob(inv) < 1e-3 {
-			if !(cond >= kinf*(1-1e-3)/estFactor) {
-				return failf("rankone-cond-lower", "%s: Cond()=%g but kappa_inf of the updated matrix is %g", desc, cond, kinf)
+			if f := condLower("rankone-cond-lower", cond, normInf(An), inv.t(), kinf); f != nil {
+				f.Msg = desc + ": " + f.Msg
+				return f
 			}
 			if !(cond <= 4*float64(n)*kinf*(1+1e-3)) {
 				return failf("rankone-cond-upper", "%s: Cond()=%g exceeds 4n*kappa_inf=%g", desc, cond, 4*float64(n)*kinf)
